@@ -79,8 +79,12 @@ def generate(run_seed, prop, tier="quick"):
         roll = rng.random()
         if roll < 0.72:
             small = rng.random() < 0.5
-            item = gen_mol.build_item(rng, size=rng.randint(3, 12) if small else rng.randint(8, 30),
-                                      mid_levels=rng.choice([0, 1, 1, 2, 2, 3]) if prop == "C06" else None)
+            if prop == "C06":
+                size = rng.randint(5, 14) if small else rng.randint(10, 30)
+                item = gen_mol.build_item(rng, size=size, n_leaves=rng.randint(3, 9),
+                                          mid_levels=rng.choice([0, 1, 1, 2, 2, 2, 3, 3]))
+            else:
+                item = gen_mol.build_item(rng, size=rng.randint(3, 12) if small else rng.randint(8, 30))
         elif roll < 0.86:
             item = gen_mol.build_repeat_item(rng)
         else:
@@ -780,6 +784,22 @@ def execute(scenario):
     for key, value in sim["stats"].items():
         stats[key] = stats.get(key, 0) + value
     stats["levels"] = max(item["n_levels"] for item in sc["items"])
+    for item in sc["items"]:
+        stats["levels:%d" % item["n_levels"]] = stats.get("levels:%d" % item["n_levels"], 0) + 1
+        if item.get("composition"):
+            stats["composition_items"] = stats.get("composition_items", 0) + 1
+            stats["composition_atoms"] = stats.get("composition_atoms", 0) + len(item["mol"]["atoms"])
+    ctor_driver = {}
+    for client in sc["clients"]:
+        ctor = None
+        for op in client["script"]:
+            if op["op"] == "construct":
+                ctor = op["ctor"] + ("+perm" if op.get("perm") else "")
+            elif op["op"] in ("resolve", "iter_next", "resolve_all") and ctor:
+                key = "path:%s/%s" % (ctor, {"resolve": "manual", "iter_next": "iter", "resolve_all": "all"}[op["op"]])
+                ctor_driver[key] = 1
+    for key in ctor_driver:
+        stats[key] = stats.get(key, 0) + 1
     stats["families"] = sorted({item["family"] + "/" + item["kind"] for item in sc["items"]})
     result["digest"] = sha(jdump([[e.get(k) for k in ("seq", "cid", "op", "out", "dig", "io", "level")] for e in ops]))
     result["nontrivial"] = bool(stats["shared_clients"] >= 2 or any(k.startswith("fault:") and k.endswith(":fired") for k in stats))
